@@ -390,6 +390,9 @@ pub fn main(req: &str) {
         if let Some(v) = get("o.cycles") {
             d = d.cycles_count(v.parse::<u64>().unwrap());
         }
+        if let Some(v) = get("bf") {
+            d = d.bytes_format(if v == "binary" { divan::counter::BytesFormat::Binary } else { divan::counter::BytesFormat::Decimal });
+        }
         match get("ign") {
             Some("inc") => d = d.run_ignored(),
             Some("only") => d = d.run_only_ignored(),
